@@ -53,9 +53,11 @@ func allSeqs(alpha []string, maxLen int, f func(s string)) {
 func (g *lineGen) addStream(fr string, s string, r *rng) {
 	n := len(s)
 	switch {
-	case n <= 13:
+	case n <= 9:
 		g.add("VX", fr, lit(s))
-	case n <= 40:
+	case n <= 20:
+		g.add("VK", fr, "2", lit(s))
+	case n <= 48:
 		g.add("VK", fr, "1", lit(s))
 	default:
 		g.add("V", fr, pick(r, []string{"1e", "1", "W", "w"}), lit(s))
@@ -80,7 +82,7 @@ func c12Exhaustive(g *lineGen, r *rng, tier string) {
 		return q
 	}
 	for _, fr := range []string{"line", "split:61"} {
-		allSeqs(c12SplitAlpha, lim(6, 8), func(s string) { g.addStream(fr, s, r) })
+		allSeqs(c12SplitAlpha, lim(6, 7), func(s string) { g.addStream(fr, s, r) })
 	}
 	for _, fr := range []string{"strict:-", "lsp"} {
 		allSeqs(c12HdrBytes, lim(4, 5), func(s string) { g.addStream(fr, s, r) })
@@ -91,10 +93,13 @@ func c12Exhaustive(g *lineGen, r *rng, tier string) {
 	allSeqs(c12HdrTokens, lim(6, 7), func(s string) { g.addStream("strict:78", s, r) })
 	allSeqs(c12HdrTokens, lim(5, 6), func(s string) { g.addStream("header:78", s, r) })
 	if th {
-		allSeqs(c12HdrTokens, 6, func(s string) { g.addStream("lsp", s, r) })
-		allSeqs(c12HdrTokens, 6, func(s string) { g.addStream("header:-", s, r) })
+		allSeqs(c12HdrTokens, 5, func(s string) { g.addStream("lsp", s, r) })
+		allSeqs(c12HdrTokens, 5, func(s string) { g.addStream("header:-", s, r) })
 	}
-	allSeqs(c12JSONTokens, lim(4, 5), func(s string) { g.addStream("rawjson", s, r) })
+	allSeqs(c12JSONTokens, 4, func(s string) { g.addStream("rawjson", s, r) })
+	if th {
+		allSeqs(c12JSONTokens[:9], 5, func(s string) { g.addStream("rawjson", s, r) })
+	}
 }
 
 // ---- truncation
